@@ -393,6 +393,15 @@ fn cases(tier: Tier) -> Vec<Case> {
         push(&mut out, s(&[h]), s(&[PROBE_ECHO]), b"AB", false);
         push(&mut out, s(&[h, "--bc-int"]), s(&[PROBE_LIMIT]), b"AB", true);
     }
+    // a file error is sticky: a later readable file must not clear it (and vice versa)
+    for bad in ["missing.bf", "bad.bf"] {
+        for b in ["", "--inplace", "--bc-int"] {
+            push(&mut out, s(&[b]), s(&["-f", bad, "-f", "a.bf", PROBE_ORDER_B]), b"AB", false);
+            push(&mut out, s(&[b]), s(&["-f", "a.bf", "-f", bad, PROBE_ORDER_B]), b"AB", false);
+            push(&mut out, s(&[b]), s(&["-f", bad, "-f", bad]), b"AB", false);
+            push(&mut out, s(&[b]), s(&["-f", "a.bf", "-f", bad, "-f", "b.bf"]), b"AB", false);
+        }
+    }
     for b in backends {
         push(&mut out, s(&[b]), s(&["-f", "bad.bf"]), b"AB", false);
         push(&mut out, s(&[b]), s(&[PROBE_ORDER_A, "-f", "bad.bf", PROBE_ORDER_B]), b"AB", false);
